@@ -361,6 +361,8 @@ impl RaftSnapshotManager {
         };
         for item in &self.snapshots[0..split_index] {
             let path = Self::get_snapshot_path(&self.base_path, item.id);
+            #[cfg(rnacos_verif)]
+            crate::verif_hook::unlink_sync(&path);
             std::fs::remove_file(path).ok();
         }
 
